@@ -56,7 +56,9 @@ pub fn judge(tree: &E, via_text: bool) -> Verdict {
             Err(p) => return Verdict::Fail(format!("parse panicked on {text:?}: {p}")),
         }
     }
-    let comp = match policy::compile_tree(&t, None, "/") {
+    // the implicit print does not depend on the thread count either (none, 0, 1, 8)
+    let threads = [None, Some(1u32), Some(0), Some(8)][(stable_hash(&(&t, "threads")) % 4) as usize];
+    let comp = match policy::compile_tree(&t, threads, "/") {
         CompileOutcome::Ok(c) => c,
         CompileOutcome::Err(_) if !crate::checks::c12::unsupported_names(&t).is_empty() => return Verdict::Skip("contains an unsupported construct (C12 decides that)"),
         CompileOutcome::Err(e) => return Verdict::Fail(format!("tree {t:?} uses only supported constructs but compile failed: {e}")),
